@@ -539,6 +539,8 @@ func (e *Engine) installSpecObjs(pkg *types.Package) {
 	mk("tarName", []types.Type{anyT, types.Typ[types.Int]}, types.Typ[types.String], false)
 	mk("lineCount", []types.Type{anyT}, types.Typ[types.Int], false)
 	mk("lineAt", []types.Type{anyT, types.Typ[types.Int]}, types.Typ[types.String], false)
+	mk("restBytes", []types.Type{anyT}, types.NewSlice(types.Typ[types.Byte]), false)
+	mk("restErr", []types.Type{anyT}, types.Universe.Lookup("error").Type(), false)
 	mk("scanPos", []types.Type{anyT}, types.Typ[types.Int], false)
 	mk("scanOK", []types.Type{types.Typ[types.String]}, boolT, false)
 	mk("scanSha", []types.Type{types.Typ[types.String]}, types.NewSlice(types.Typ[types.Byte]), false)
